@@ -67,6 +67,13 @@ func c04Source(g *c04Graph) string {
 			} else {
 				fmt.Fprintf(&b, "node(%d)[\"e%d\"] = node(%d)\n", a, c, c)
 			}
+		case "kedge":
+			a, c := int(h[1].(float64)), int(h[2].(float64))
+			if g.Kinds[a-1] == "dict" {
+				fmt.Fprintf(&b, "node(%d)[node(%d)] = 0\n", a, c)
+			} else {
+				fmt.Fprintf(&b, "node(%d).add(node(%d))\n", a, c)
+			}
 		case "global":
 			i := int(h[1].(float64))
 			fmt.Fprintf(&b, "g%d = node(%d)\n", i, i)
